@@ -35,7 +35,7 @@ RUNS = {
     "thorough": [
         dict(name="exh1", maxfields=1, maxweight=1, minfields=1, minweight=0, syn=ALLSYN, scopes=ALLSCOPES, sim=None, coverage=True),
         dict(name="exh2", maxfields=1, maxweight=2, minfields=1, minweight=2, syn=ALLSYN, scopes=ALLSCOPES, sim=None),
-        dict(name="exh3", maxfields=1, maxweight=3, minfields=1, minweight=3, syn='"editions"', scopes='"file", "N"', sim=None),
+        dict(name="exh3", maxfields=1, maxweight=3, minfields=1, minweight=3, syn='"editions"', scopes='"N"', sim=None),
         dict(name="sim", maxfields=3, maxweight=10, minfields=2, minweight=3, syn=ALLSYN, scopes=ALLSCOPES, sim=250, depth=13),
     ],
 }
@@ -195,7 +195,7 @@ def run(pid, tier, replay=None):
                         and (len(samples) == 0 or o["fields"][0]["src"]["type"] != samples[-1]["fields"][0]["src"]["type"]):
                     samples.append(o)
             sim = r.get("sim")
-            res = vf.tlc("MCFeatures", cfg, wd, workers=1 if sim else 4, simulate=sim, depth=r.get("depth"),
+            res = vf.tlc("MCFeatures", cfg, wd, workers=1 if sim else 6, simulate=sim, depth=r.get("depth"),
                          tseed=vf.seed() if sim else None, case_sink=sink, timeout=2400, coverage=bool(r.get("coverage")))
         if res.violated:
             raise vf.MachineryError("spec-level check failed in MCFeatures (%s): %s" % (r["name"], res.violated))
